@@ -173,6 +173,12 @@ class AsyncTask(futures.FutureBase):
             except BaseException as e:
                 value = None
                 error = e
+            # With KEEP_DEPENDENCIES the (already computed) dependencies of earlier yields stay
+            # in the list, so only dependencies added by this yield count below.
+            if _debug_options.KEEP_DEPENDENCIES:
+                num_kept_dependencies = len(self._dependencies)
+            else:
+                num_kept_dependencies = 0
             try:
                 self._accept_yield_result(self._continue_on_generator(value, error))
             except StopIteration as error:  # Most frequent, so it's the first one
@@ -197,7 +203,7 @@ class AsyncTask(futures.FutureBase):
 
             if self.is_computed():
                 return
-            if len(self._dependencies) > 0:
+            if len(self._dependencies) > num_kept_dependencies:
                 return
 
     def _continue_on_generator(self, value, error):
